@@ -832,8 +832,8 @@ protected:
               {
                 iora::core::Logger::error("HttpServer: Body size limit exceeded for session " +
                                           std::to_string(sid) + " - closing connection");
-                // No lock held; guarded close (was unguarded raw _transport->close).
-                closeSession(sid);
+                // No lock held; sendErrorResponse closes the session after the 413.
+                sendErrorResponse(sid, 413, "Payload Too Large");
                 return;
               }
             }
@@ -905,6 +905,17 @@ protected:
       {
         // Handle content-length or no body
         std::size_t totalExpectedLength = headerEnd + 4 + contentLength;
+        // A request is dispatched only once it is completely buffered and the
+        // session buffer holds at most MAX_BUFFER_SIZE: refuse a longer one now,
+        // before its body is read (RFC 9110 §15.5.14), instead of dropping the
+        // connection without an answer when the buffer limit trips midway.
+        if (totalExpectedLength > SessionInfo::MAX_BUFFER_SIZE)
+        {
+          iora::core::Logger::error("HttpServer: Request does not fit the session buffer for "
+                                    "session " + std::to_string(sid) + " - closing connection");
+          sendErrorResponse(sid, 413, "Payload Too Large");
+          return;
+        }
         if (dataStr.length() < totalExpectedLength)
         {
           break; // Need more data for body
@@ -2255,6 +2266,10 @@ private:
     std::string httpVersion = "1.1"; // Default to HTTP/1.1
 
     // Buffer management constants
+    // A request is buffered whole (header section + body) before dispatch, so
+    // MAX_BUFFER_SIZE is the effective limit for one request; a Content-Length
+    // that cannot fit is answered 413. MAX_BODY_SIZE only bounds the announced
+    // Content-Length and takes effect once it is the smaller of the two.
     static constexpr std::size_t MAX_BUFFER_SIZE = 1024 * 1024;    // 1MB max per session
     static constexpr std::size_t MAX_HEADER_SIZE = 64 * 1024;      // 64KB max headers
     static constexpr std::size_t MAX_BODY_SIZE = 10 * 1024 * 1024; // 10MB max body
